@@ -48,6 +48,7 @@ struct Tally {
     freed: u64,
     random: u64,
     empty_seen: u64,
+    freed_big: u64,
 }
 
 /// Consistency that must hold for every address at a quiescent point.
@@ -166,6 +167,19 @@ pub fn at_pause_end(sh: &Shadow, live: &HashSet<u64>) {
                 check_agreement(*a, &r, &table, "freed");
             }
         }
+        // every chunk of dead multi-chunk objects
+        for (a, size) in sh.dead_big.iter().rev().take(24) {
+            let mut x = *a + 8;
+            while x < *a + *size {
+                if let Some(r) = resolve(x, "freed-multi-chunk") {
+                    t.freed += 1;
+                    t.freed_big += 1;
+                    t.empty_seen += (r.name == "empty") as u64;
+                    check_agreement(x, &r, &table, "freed-multi-chunk");
+                }
+                x += 4 << 20;
+            }
+        }
         for (_, a, size) in sh.dead_probe.iter().take(32) {
             for x in [*a, start_of(*a) + *size - 8] {
                 if let Some(r) = resolve(x, "freed") {
@@ -195,6 +209,7 @@ pub fn at_pause_end(sh: &Shadow, live: &HashSet<u64>) {
         r.count("space_boundary_addresses", t.boundaries);
         r.count("outside_heap_addresses", t.outside);
         r.count("freed_object_addresses", t.freed);
+        r.count("freed_multi_chunk_object_addresses", t.freed_big);
         r.count("random_chunk_addresses", t.random);
         r.count("addresses_resolved_to_empty", t.empty_seen);
         r.count("probe_batches", 1);
